@@ -176,7 +176,9 @@ func (s *Statement) unevict(
 	}
 	reclaimee.GPUGroups = previousGpuGroups
 	reclaimee.IsVirtualStatus = previousIsVirtualStatus
-	reclaimee.ResourceClaimInfo = previousResourceClaimInfo
+	// Restore a copy: the snapshot stays with the evict operation, which can be reversed again after a redo
+	// (un-evict, then Discard/Rollback), while the DRA plugin updates the task's live claim info in place.
+	reclaimee.ResourceClaimInfo = previousResourceClaimInfo.Clone()
 
 	// Update task in node.
 	if node != nil {
@@ -467,7 +469,7 @@ func (s *Statement) unpipeline(
 	hostname := task.NodeName
 	task.NodeName = previousNode
 	task.GPUGroups = previousGpuGroups
-	task.ResourceClaimInfo = previousResourceClaimInfo
+	task.ResourceClaimInfo = previousResourceClaimInfo.Clone()
 	task.IsVirtualStatus = previousIsVirtualStatus
 
 	if node, found := s.ssn.ClusterInfo.Nodes[hostname]; found {
